@@ -64,6 +64,11 @@ pub struct Ctx {
     pub ref_exchanges: Vec<RefExchange>,
     pub ref_long_pk: Vec<u8>,
     pub snaps: BTreeMap<String, StatSnap>,
+    /// largest number of tracked addresses any recorder snapshot showed
+    pub max_unique: u64,
+    /// per-address sums of every snapshot popped from the stats queue by the harness drain task
+    pub drained: BTreeMap<IpAddr, [u64; 8]>,
+    pub drained_snapshots: u64,
     /// cumulative totals pushed to the stats queue per worker (W mode, C17)
     pub health_conns: Vec<(u32, dsim::ConnId)>,
     pub closed_loop: Vec<ClosedLoopRec>,
@@ -277,8 +282,29 @@ fn w_worker(spec: ServerSpec, queue: Arc<roughenough::stats::StatsQueue>, snap: 
         server.process_events(&mut events);
         if snap {
             let s = snap_stats(server.verif_stats(), cfg.client_stats);
-            ctx(|c| c.snaps.insert(name.clone(), s));
+            ctx(|c| {
+                c.max_unique = c.max_unique.max(s.unique);
+                c.snaps.insert(name.clone(), s)
+            });
         }
+    }
+}
+
+fn drain_main(queue: Arc<roughenough::stats::StatsQueue>) {
+    loop {
+        while let Some(snapshot) = queue.pop() {
+            ctx(|c| {
+                c.drained_snapshots += 1;
+                for cs in &snapshot {
+                    let e = c.drained.entry(cs.ip_addr).or_insert([0; 8]);
+                    let add = [cs.rfc_requests as u64, cs.classic_requests as u64, cs.invalid_requests as u64, cs.health_checks as u64, cs.rfc_responses_sent as u64, cs.classic_responses_sent as u64, cs.bytes_sent as u64, cs.failed_send_attempts as u64];
+                    for i in 0..8 {
+                        e[i] += add[i];
+                    }
+                }
+            });
+        }
+        dsim::sleep(Duration::from_millis(5));
     }
 }
 
@@ -291,6 +317,10 @@ fn w_main(spec: ServerSpec, snap: bool) {
     let n = spec.workers.max(1) as usize;
     let queue = Arc::new(roughenough::stats::StatsQueue::new(n * 2));
     let mut hs = Vec::new();
+    if snap {
+        let q = queue.clone();
+        let _ = verif_std::thread::Builder::new().name("stats-drain".to_string()).spawn(move || drain_main(q)).unwrap();
+    }
     for i in 0..n {
         let (s, q) = (spec.clone(), queue.clone());
         let h = verif_std::thread::Builder::new().name(format!("worker-{}", i)).spawn(move || w_worker(s, q, snap)).unwrap();
